@@ -22,8 +22,10 @@ import (
 	"encoding/hex"
 	"errors"
 	"io"
+	"maps"
 	"net/http"
 	"net/url"
+	"slices"
 	"strings"
 	"time"
 
@@ -345,9 +347,10 @@ func (a *remoteAuthorizer) calculateCacheKey(sub *subject.Subject, values map[st
 	hash.Write(ttlBytes)
 	hash.Write(sub.Hash())
 
-	for k, v := range values {
+	// in sorted order: the key must not depend on the iteration order of the map
+	for _, k := range slices.Sorted(maps.Keys(values)) {
 		hash.Write(stringx.ToBytes(k))
-		hash.Write(stringx.ToBytes(v))
+		hash.Write(stringx.ToBytes(values[k]))
 	}
 
 	return hex.EncodeToString(hash.Sum(nil))
